@@ -121,6 +121,7 @@ def run(ctx):
     ctx.ob(R3, f"{AUX}::_init_runpp_options::overrule", ok, "stored options are filtered by 'key not in passed_parameters'", fo.loc())
     rule_kwargs_and_readers(ctx)
     rule_passed_exact(ctx)
+    rule_locals_clean(ctx)
 
 
 def rule_passed_exact(ctx):
@@ -178,6 +179,85 @@ def rule_passed_exact(ctx):
            "stored option wins", fr.loc(blk))
 
 
+def _bound_names(st):
+    """names bound by one statement (not descending into nested function / class bodies)"""
+    out = []
+    stack = [st]
+    while stack:
+        n = stack.pop()
+        if isinstance(n, (ast.FunctionDef, ast.AsyncFunctionDef, ast.ClassDef)):
+            out.append((n.name, n))
+            continue
+        if isinstance(n, (ast.Lambda, ast.ListComp, ast.SetComp, ast.DictComp, ast.GeneratorExp)):
+            continue
+        if isinstance(n, ast.Name) and isinstance(n.ctx, (ast.Store, ast.Del)):
+            out.append((n.id, n))
+        if isinstance(n, (ast.Import, ast.ImportFrom)):
+            out += [((a.asname or a.name).split(".")[0], n) for a in n.names]
+        if isinstance(n, ast.ExceptHandler) and n.name:
+            out.append((n.name, n))
+        stack.extend(ast.iter_child_nodes(n))
+    return out
+
+
+def rule_locals_clean(ctx):
+    R = "LOCALS-CLEAN"
+    ctx.rule(R, "the locals() snapshot from which the passed parameters are computed contains no helper variable named like a "
+                "power-flow option: "
+                "_passed_runpp_parameters counts every name that is not a named parameter with a default as passed, so a helper "
+                "variable bound on a path to the snapshot makes the option of that name 'passed' in every call and the stored "
+                "option is never applied")
+    n_sites = 0
+    # the names a user can store: everything the option initialisers look up in kwargs, and their own named parameters
+    options = set()
+    for fo in ctx.repo.module(AUX).functions.values():
+        if fo.qualname.startswith("_init_") and fo.qualname.endswith("_options"):
+            options |= {a.arg for a in fo.node.args.args[1:]}
+            for c in ast.walk(fo.node):
+                if isinstance(c, ast.Call) and ast.unparse(c.func) in ("kwargs.get", "kwargs.pop", "overrule_options.get") and c.args \
+                        and isinstance(c.args[0], ast.Constant) and isinstance(c.args[0].value, str):
+                    options.add(c.args[0].value)
+    if len(options) < 25:
+        ctx.fail(f"LOCALS-CLEAN: only {len(options)} option names found in the _init_*_options functions (confirmed: 32)")
+    for fq in (f"{RUN}:runpp", "pandapower.pf.runpp_3ph:runpp_3ph"):
+        fi = ctx.repo.func(fq)
+        params = {a.arg for a in fi.node.args.args + fi.node.args.kwonlyargs}
+        params |= {a.arg for a in (fi.node.args.vararg, fi.node.args.kwarg) if a is not None}
+        snaps = [c for c in ast.walk(fi.node) if isinstance(c, ast.Call) and dotted(c.func) == "_passed_runpp_parameters"
+                 and c.args and isinstance(c.args[0], ast.Call) and dotted(c.args[0].func) == "locals"]
+        for call in snaps:
+            n_sites += 1
+            # statements that can execute before the snapshot: walk down the statement lists that contain it
+            leaked = []
+            body = fi.node.body
+            while body is not None:
+                nxt = None
+                for st in body:
+                    if st.lineno <= call.lineno <= (st.end_lineno or st.lineno):
+                        # the compound statement holding the call: only its own header bindings, then descend
+                        for fld in ("body", "orelse", "finalbody", "handlers"):
+                            sub = getattr(st, fld, None)
+                            if isinstance(sub, list) and sub and isinstance(sub[0], ast.stmt) and \
+                                    sub[0].lineno <= call.lineno <= (sub[-1].end_lineno or sub[-1].lineno):
+                                nxt = sub
+                        if isinstance(st, (ast.For, ast.AsyncFor)):
+                            leaked += _bound_names(st.target)
+                        if isinstance(st, (ast.With, ast.AsyncWith)):
+                            leaked += [b for it in st.items if it.optional_vars is not None for b in _bound_names(it.optional_vars)]
+                        break
+                    leaked += _bound_names(st)
+                body = nxt
+            bad = sorted({nm for nm, _ in leaked if nm not in params and nm in options})
+            first = next((nd for nm, nd in leaked if nm in bad), None)
+            ctx.ob(R, f"{fi.module.name}::{fi.qualname}::locals-snapshot", not bad,
+                   "no local with the name of a power-flow option is bound before the locals() snapshot" if not bad else
+                   f"local name(s) {bad} are bound before `_passed_runpp_parameters(locals())`: each counts as a passed argument in "
+                   "every call, so a stored user option of that name is never applied",
+                   fi.loc(first) if first is not None else fi.loc(call))
+    if n_sites < 2:
+        ctx.fail(f"LOCALS-CLEAN: only {n_sites} locals() snapshots found (confirmed: runpp, runpp_3ph)")
+
+
 def rule_kwargs_and_readers(ctx):
     # explicit keyword options are passed by definition - whatever their value
     R = "KWARGS-PASSED"
@@ -228,6 +308,8 @@ def variants(repo):
         V("run_control branch with a hand-written argument list", "pandapower/run.py", in_function("runpp", replace_once("        parameters = {**locals(), **kwargs}\n", "        parameters = dict(algorithm=algorithm, init=init, max_iteration=max_iteration, tolerance_mva=tolerance_mva, **kwargs)\n        parameters['net'] = net\n")), "run_control-hand-over"),
         V("None-valued keyword options not counted as passed", "pandapower/run.py", in_function("_passed_runpp_parameters", replace_once("passed_parameters.update(kwargs_parameters)", "passed_parameters.update({key: val for key, val in kwargs_parameters.items() if val is not None})")), "KWARGS-PASSED"),
         V("recycle shortcut reads the stored options", "pandapower/run.py", in_function("runpp", replace_once('    if isinstance(kwargs.get("recycle", None), dict) and _internal_stored(net):', '    recycle = net.get("user_pf_options", {}).get("recycle", kwargs.get("recycle", None))\n    if isinstance(recycle, dict) and _internal_stored(net):')), "STORED-READERS"),
+        V("helper variable before the locals() snapshot", "pandapower/run.py", in_function("runpp", replace_once('    if isinstance(kwargs.get("recycle", None), dict) and _internal_stored(net):', '    recycle = kwargs.get("recycle", None)\n    if isinstance(recycle, dict) and _internal_stored(net):')), "LOCALS-CLEAN"),
+        V("helper variable after the snapshot (twin)", "pandapower/run.py", in_function("runpp", replace_once("        _check_bus_index_and_print_warning_if_high(net)\n", "        n_bus = len(net.bus)\n        _check_bus_index_and_print_warning_if_high(net)\n")), None),
         V("init not re-read", a, in_function("_init_runpp_options", replace_once('    init = overrule_options.get("init", init)\n', '')), "REREAD"),
         V("stored options win", a, in_function("_init_runpp_options", replace_once("if key not in passed_parameters.keys()}", "if key in passed_parameters.keys() or True}")), "PRIORITY"),
     ]
